@@ -821,3 +821,7 @@ package helper
 //@ ensures[C18] smaS(a, P)[k] == smaS(b, P)[k]
 //@ use psum_cong(a, b, k + P)
 //@ use psum_cong(a, b, k)
+//@ lemma smaS_scale_n(a stream, b stream, lam real, P int, n int, k int)
+//@ requires[C18] P >= 1 && k >= 0 && k + P <= n && (forall j :: 0 <= j && j < n ==> b[j] == lam * a[j])
+//@ ensures[C18] smaS(b, P)[k] == lam * smaS(a, P)[k] && winS(b, P)[k] == lam * winS(a, P)[k]
+//@ use smaS_scale(a, b, lam, P, k)
